@@ -122,8 +122,12 @@ ReceiverSeq == SetToSeqAny(ReceiverSet) \o << << BigRecv, "recv-big" >> >> \o Ot
 KeyLens16 == << 0, 1, 15, 16, 17, 32, 64 >>
 IdPool == << FillT("seeded", 0, 0), Lit(<< 48 >>), Lit(<< 54, 50, 48, 56, 57, 51, 48, 48, 48, 48, 48, 48, 48, 48, 49, 64, 119, 108, 97, 110 >>),
              FillT("zero", 8, 0), FillT("ramp", 128, 128), Lit(<< 255, 254, 192, 128, 237, 160, 128 >>), FillT("seeded", 255, 7) >>
+\* identities whose first / last octets are white space, NUL, >= 0x80, or which are all letters: S = "EAP-AKA'" | Identity takes the
+\* identity as it is (C16: "any octets, not only text")
+EdgeIds == [q \in 1..(2 * Len(EdgeClasses)) |-> Lit(Edge(EdgeClasses[((q - 1) % Len(EdgeClasses)) + 1], IF q <= Len(EdgeClasses) THEN 9 ELSE 2, Seed + q))]
+IdAt(c) == IF c <= Len(IdPool) THEN IdPool[c] ELSE EdgeIds[c - Len(IdPool)]
 PrfVector(a, b, c) ==
-  LET ik == FillT("seeded", KeyLens16[a], Seed + 1) ck == FillT("ramp", KeyLens16[b], Seed + 2) id == IdPool[c]
+  LET ik == FillT("seeded", KeyLens16[a], Seed + 1) ck == FillT("ramp", KeyLens16[b], Seed + 2) id == IdAt(c)
       \* a second derivation with inputs of the same lengths and other contents (the caller reuses its buffers), then the first again
       ik2 == FillT("seeded", KeyLens16[a], Seed + 31) ck2 == FillT("seeded", KeyLens16[b], Seed + 32)
       empty == KeyLens16[a] = 0 \/ KeyLens16[b] = 0
@@ -182,7 +186,7 @@ Eap5GVector(resp) ==
   Vector("eap5g", [n \in 1..(Len(full) + 1) |->
      LET b == EncEap(pk(n - 1)) IN Step("eap_decode", IF n % 2 = 0 THEN "C04" ELSE "C14", FALSE, [wire |-> b, caps |-> TRUE], ExpectEapDecode(b))])
 Count(k) == CASE k = "unknown" -> 14 [] k = "eap" -> Len(EapPool) [] k = "code" -> 256 [] k = "set" -> 7 [] k = "sender" -> Len(EapPool) [] k = "receiver" -> Len(ReceiverSeq)
-              [] k = "prf" -> 49 * Len(IdPool)
+              [] k = "prf" -> 49 * Len(IdPool) + 2 * Len(EdgeIds)
 SetTypes == << AT_RAND, AT_AUTN, AT_RES, AT_MAC, AT_KDF_INPUT, AT_KDF, AT_CHECKCODE >>
 Init == stage = 0 /\ kind = "" /\ i = 0
 Next == \/ stage = 0 /\ stage' = 1 /\ kind' \in Kinds /\ i' = 0
@@ -196,7 +200,8 @@ Vec == CASE kind = "unknown" -> IF i = 9 THEN BigEapVector ELSE IF i = 10 THEN D
          [] kind = "sender" -> IF i <= 6 THEN SenderVector(MacBase(i), (i % Len(KautPool)) + 1)
                                ELSE IF EapPool[i].m = "aka" THEN SenderVector(EapPool[i], (i % Len(KautPool)) + 1) ELSE Vector("skip", << Step("eap_encode", "C14", TRUE, [eap |-> EapPool[i]], NoCrash) >>)
          [] kind = "receiver" -> ReceiverVector(ReceiverSeq[i][1], (i % 2) + 1, ReceiverSeq[i][2])
-         [] OTHER -> PrfVector(((i - 1) % 7) + 1, (((i - 1) \div 7) % 7) + 1, ((i - 1) \div 49) + 1)
+         [] OTHER -> IF i <= 49 * Len(IdPool) THEN PrfVector(((i - 1) % 7) + 1, (((i - 1) \div 7) % 7) + 1, ((i - 1) \div 49) + 1)
+                     ELSE LET j == i - 49 * Len(IdPool) - 1 IN PrfVector(4 + (j % 2), 4 + ((j \div 2) % 2), Len(IdPool) + (j \div 2) + 1)
 Emit == stage = 2 => PrintT(ToJson(Vec))
 Sound == stage = 2 /\ kind = "eap" => EapRefSound(EapPool[i])
 =============================================================================
